@@ -10,6 +10,7 @@ from __future__ import annotations
 
 import datetime
 import hashlib
+import ipaddress
 import os
 
 _DIR = None
@@ -74,7 +75,9 @@ def _build(kind: str, cn: str = "localhost", label: str | None = None):
         .not_valid_before(now)
         .not_valid_after(now + datetime.timedelta(days=3650))
         .add_extension(x509.BasicConstraints(ca=True, path_length=None), critical=True)
-        .add_extension(x509.SubjectAlternativeName([x509.DNSName(cn)]), critical=False)
+        .add_extension(x509.SubjectAlternativeName(
+            [x509.DNSName(n) for n in dict.fromkeys([cn, "localhost", "h1", "h2", "h3"])]
+            + [x509.IPAddress(ipaddress.ip_address("::1")), x509.IPAddress(ipaddress.ip_address("127.0.0.1"))]), critical=False)
     )
     alg = None if kind.startswith("ed") else hashes.SHA256()
     cert = b.sign(key, alg)
@@ -156,6 +159,16 @@ def get(kind: str) -> Cert:
     c = Cert(kind, der, key_pem, pem)
     _CACHE[kind] = c
     return c
+
+
+def ca_bundle(kinds=("rsa-a", "ec-a", "ec-b", "ed-a", "twin-a", "twin-b")) -> str:
+    """PEM file with the (self-signed, CA:TRUE) certificates of the given kinds, usable as SSL_CERT_FILE."""
+    path = os.path.join(scratch_dir(), "bundle-" + "-".join(kinds) + ".pem")
+    if not os.path.exists(path):
+        with open(path, "wb") as f:
+            for k in kinds:
+                f.write(get(k).cert_pem)
+    return path
 
 
 def parses(der: bytes) -> bool:
